@@ -64,6 +64,7 @@ bool muggle_hash_table_init(muggle_hash_table_t *p_hash_table, size_t table_size
 	p_hash_table->nodes = (muggle_hash_table_node_t*)malloc(sizeof(muggle_hash_table_node_t) * table_size);
 	if (p_hash_table->nodes == NULL)
 	{
+		p_hash_table->table_size = 0;
 		if (p_hash_table->pool)
 		{
 			muggle_memory_pool_destroy(p_hash_table->pool);
